@@ -124,9 +124,9 @@ def call_items(cell, ch):
     return n - n % ch
 
 
-def expected_ret1(cell, ch, n, k, kind):
-    rs = rounds_of(cell, n)
-    stored = sum(rs[:k - 1]) * cell.w + shortened(kind, rs[k - 1] * cell.w)
+def expected_ret1(cell, ch, rounds, k, kind):
+    """rounds: bytes per staging round (measured)"""
+    stored = sum(rounds[:k - 1]) + shortened(kind, rounds[k - 1])
     return (stored // (cell.w * ch)) * ch
 
 
@@ -159,17 +159,21 @@ def ref_script(cell, ch, n):
 
 
 def round_callbacks(cell, n, ref_lines):
-    """index (1-based, among all callbacks of the long call) of the write callback of each staging round, from the fault-free trace"""
+    """the staging rounds of the long call as the fault-free trace shows them: [(index among ALL callbacks of the call, 1-based; bytes)] = the
+    trailing write callbacks whose sizes add up to the call's bytes (XI writes its header first).  The kernels of float32.c / double64.c
+    round their staging length down to whole frames (`bufferlen -= bufferlen % channels`), so the rounds are MEASURED, not taken from the table."""
     tr = next((l for l in ref_lines if "trace=" in l), "")
     cbs = tr.split("trace=", 1)[1].split(",") if "trace=" in tr else []
-    want = [b * cell.w for b in rounds_of(cell, n)]
-    idx, j = [], 0
-    for i, cb in enumerate(cbs, 1):
-        m = re.match(r"W(\d+)@", cb)
-        if m and j < len(want) and int(m.group(1)) == want[j]:
-            idx.append(i)
-            j += 1
-    return idx if j == len(want) else None
+    out, left = [], n * cell.w
+    for i in range(len(cbs), 0, -1):
+        m = re.match(r"W(\d+)@", cbs[i - 1])
+        if not m:
+            continue
+        out.append((i, int(m.group(1))))
+        left -= int(m.group(1))
+        if left <= 0:
+            break
+    return out[::-1] if left == 0 else None
 
 
 def plan(cells, quick):
@@ -193,6 +197,14 @@ def plan(cells, quick):
             else:
                 out.append((c, ch, pos[len(pos) // 2], 2, "f"))
     return out
+
+
+def torn_item(cell, ch, f, tags):
+    """class + signature of KF-C15-TORN-ITEM: the short transfer ended inside an item, its complete items are whole frames (no re-seek), and the
+    ONLY failing clause is `file` with exactly the fragment's bytes too many"""
+    frag = f["stored1"] % cell.w
+    return (tags == ["file"] and frag != 0 and (f["stored1"] // cell.w) % ch == 0
+            and f["closed_len"] == f["hdr"] + (f["ret1"] + f["ret2"]) * cell.w + frag)
 
 
 def record_of(cell, ch, n, unit, ret1_used, lines, ref_lines):
@@ -253,18 +265,21 @@ def campaign(ctx, quick, only=None):
         refs["ref|%s|ch%d" % (c.name(), ch)] = ref_script(c, ch, call_items(c, ch))
     impl = ctx.batch(list(refs.items()), clean=True, op_timeout=10, retry_timeouts=True)
     jobs, meta = [], {}
-    layout_unknown = []
+    layout_unknown, off_table = [], set()
     for (c, ch, k, kind, unit, nm) in pl:
         n = call_items(c, ch)
-        idx = round_callbacks(c, n, impl.get("ref|%s|ch%d" % (c.name(), ch), []))
-        if idx is None:
-            layout_unknown.append(nm)        # the fault-free call does not make the write callbacks the staging table predicts
+        rc = round_callbacks(c, n, impl.get("ref|%s|ch%d" % (c.name(), ch), []))
+        if rc is None or k > len(rc):
+            layout_unknown.append(nm)        # the fault-free call's write callbacks do not add up to the call (or there are fewer rounds than planned)
             continue
-        r1 = expected_ret1(c, ch, n, k, kind)
-        sc = script_of(c, ch, n, k, kind, unit, r1, at=idx[k - 1])
+        if [b for (_, b) in rc] != [x * c.w for x in rounds_of(c, n)]:
+            off_table.add("%s|ch%d" % (c.name(), ch))
+        r1 = expected_ret1(c, ch, [b for (_, b) in rc], k, kind)
+        sc = script_of(c, ch, n, k, kind, unit, r1, at=rc[k - 1][0])
         jobs.append((nm, sc))
-        meta[nm] = [c, ch, n, k, kind, unit, r1, sc, idx[k - 1]]
-    stats["cells_whose_fault_free_call_does_not_match_the_staging_table"] = sorted({x.split("|")[0] for x in layout_unknown})
+        meta[nm] = [c, ch, n, k, kind, unit, r1, sc, rc[k - 1][0]]
+    stats["scripts_dropped_because_the_fault_free_trace_is_not_understood"] = len(layout_unknown)
+    stats["cells_whose_rounds_differ_from_the_Lean_staging_table(whole-frame rounding of float32.c / double64.c)"] = sorted(off_table)
     impl.update(ctx.batch(jobs, clean=True, op_timeout=10, retry_timeouts=True))
     # a cell whose first call did not return what the staging table predicts is re-run with the value it did return (the re-submission
     # must start where the library said it stopped); the verdict is about that second run
@@ -284,6 +299,10 @@ def campaign(ctx, quick, only=None):
 
     recs, fields, probs = [], {}, []
     fired = 0
+    # KF-C15-TORN-ITEM is waived only while its witness still fails on this tree
+    kf_torn = next((k for k in ctx.known if k.get("id") == "KF-C15-TORN-ITEM" and k.get("status") == "known"), None)
+    if kf_torn is not None and not ctx.witness_still_fails(kf_torn):
+        kf_torn = None
     for nm, (c, ch, n, k, kind, unit, r1, sc, at) in meta.items():
         lines = impl.get(nm, [])
         ctx.count(len(lines), "stage:%s:%s" % (c.kernel, "swap" if c.enc.endswith("be") else "host"))
@@ -313,13 +332,17 @@ def campaign(ctx, quick, only=None):
             if v[0] == "ok":
                 continue
             tags = L.kvs(" ".join(v)).get("clause", "?").split(",")
+            if kf_torn is not None and torn_item(meta[nm][0], meta[nm][1], fields[nm], tags):
+                stats["known_finding_hits(KF-C15-TORN-ITEM)"] = stats.get("known_finding_hits(KF-C15-TORN-ITEM)", 0) + 1
+                ctx.known_finding(kf_torn)
+                continue
             f = dict(fields[nm], acc=fields[nm]["ret1"] + fields[nm]["ret2"])
             text = "; ".join(CLAUSE_TEXT.get(t, t) % f for t in tags)
             probs.append((nm, tags, text, meta[nm][7]))
     stats["records_judged_by_Sf.StageLoop.judge"] = len(recs)
 
     # ---- the modelled cells on Sf.Faults (writeLoop / writeTail under the same schedule)
-    mjobs = [(nm, m[7]) for nm, m in meta.items() if m[0].modelled]
+    mjobs = [(nm, m[7]) for nm, m in meta.items() if m[0].modelled and "%s|ch%d" % (m[0].name(), m[1]) not in off_table]
     if quick and only is None:
         # the driver costs 65 ms per long script: ONE script per cell here (the round rotates with the cell), all of them in the thorough tier
         per = {}
